@@ -16,6 +16,12 @@ values that may end in an exception) — nothing is bounded.
                                  rejected with LenaTypeError when the sequence is constructed, never later"
 * `toTree_build`, `spec_regroup` — the same for programs over the real vocabulary, as the model driver evaluates them
 * `run_callables`             — a sequence of plain callables is their composition applied value by value
+* `rerunStored_append`, `seq_rerun_append`, `rerun_nil` — a sequence object that is run again (inside RunIf, in a Split
+                                 branch) is still the left-to-right composition, each element with its own history
+* `splitH_seq`                — the general `Split.run` of the model is the block schedule `splitS` for stateless sequences
+* `runIfH_const`, `source_of_sequence`, `mkBranch_error`, `accFillQ_noFloat`, `accComputeQ_noFloat` — ties of the
+                                 extended vocabulary (stateful RunIf, Sequence as first element of a Source, Split
+                                 branches of type fill_compute, float totals) to the definitions above
 * `mapS_mapS`, `mapS_total`, `filterS_total`, `fcSpec_total`, `sliceS_ofList`, `reverseS_ofList` — what "each
                                  element's stream transformation" is for callables, Filter, fill/compute elements,
                                  Slice and Reverse (values in order; which exception comes first) -/
@@ -129,6 +135,11 @@ theorem convertAll_sound : ∀ (es : List (Element α)) (ss : List (Stored α)),
         rcases List.mem_cons.1 hst' with rfl | h'
         · exact convert_sound e _ hc
         · exact convertAll_sound es ss' hr st' h'
+
+theorem Stored.soundB_iff (st : Stored α) : st.soundB = true ↔ st.Sound := by
+  cases st with
+  | asIs e => simp [Stored.soundB, Stored.Sound, Attr.callable_iff]
+  | adapted m e => cases m <;> simp [Stored.soundB, Stored.Sound, Attr.callable_iff]
 
 /-- **Never later.**  In a constructed sequence every stored entry has the method its `run` will
 use (so no `AttributeError`/`TypeError` for a missing or non-callable `run`, `__call__`, `fill`,
@@ -810,10 +821,6 @@ theorem mapS_pure (s : Strm α) : mapS (fun x => (.ok x : Except Exc α)) s = s 
   obtain ⟨xs, t⟩ := s
   exact mapGo_pure t xs
 
-/-- the value-by-value composition of a list of callables: `x ↦ en(...e2(e1(x)))`, stopping at the
-first one that raises -/
-def callAll (es : List (Element α)) (x : α) : Except Exc α := es.foldlM (fun v e => e.callDen v) x
-
 theorem fold_callables : ∀ (es : List (Element α)) (f0 : α → Except Exc α) (flow : Strm α),
     (∀ e ∈ es, e.run.callable = false ∧ e.call = true) →
     es.foldlM (fun fl e => e.den fl) (mapS f0 flow) = .ok (mapS (fun x => f0 x >>= callAll es) flow)
@@ -857,5 +864,368 @@ example :
     let odd : Element Nat := { call := true, callDen := fun x => if x % 2 = 1 then .ok x else .error .valueError }
     (mkSequence [inc, odd, inc]).toOption.map (fun s => observe (s.run (.ofList [2, 4, 5, 6])))
       = some ⟨[4, 6], some .valueError⟩ := by decide
+
+/-! ### sequences that are run again -/
+
+theorem pastOutsAll_append (a b : List (Stored α)) (past : List (Strm α)) :
+    pastOutsAll (a ++ b) past = pastOutsAll b (pastOutsAll a past) := by
+  induction a generalizing past with
+  | nil => rfl
+  | cons st ss ih => simp [pastOutsAll, ih]
+
+/-- **A sequence that is run again is still the left-to-right composition**: the first part of the
+sequence transforms the flow (each element with the state its own earlier inputs left), the rest is
+fed with its output and sees, as its history, what the first part yielded in the earlier runs. -/
+theorem rerunStored_append (a b : List (Stored α)) (past : List (Strm α)) (s : Strm α) :
+    rerunStored (a ++ b) past s = (rerunStored a past s >>= rerunStored b (pastOutsAll a past)) := by
+  induction a generalizing past s with
+  | nil => rfl
+  | cons st ss ih =>
+    simp only [List.cons_append, rerunStored, pastOutsAll]
+    cases st.rerun past s with
+    | error e => rfl
+    | ok s' => exact ih _ s'
+
+/-- the first run of an object is its run without history -/
+theorem Stored.rerun_nil (st : Stored α) (h : st.element.rerunDen [] = st.element.runDen) :
+    st.rerun [] = st.run := by
+  cases st with
+  | asIs e =>
+    funext s
+    simp only [Stored.element] at h
+    simp only [Stored.rerun, Stored.run, Element.invokeRerun, Element.invokeRun, h]
+  | adapted m e =>
+    cases m with
+    | runMethod =>
+      funext s
+      simp only [Stored.element] at h
+      simp only [Stored.rerun, Stored.run, Element.invokeRerun, Element.invokeRun, h]
+    | callRun => rfl
+    | fcRun => rfl
+
+theorem pastOuts_nil (st : Stored α) (done : List (Strm α)) : pastOuts st done [] = [] := rfl
+
+theorem rerunStored_nil : ∀ (ss : List (Stored α)),
+    (∀ st ∈ ss, st.element.rerunDen [] = st.element.runDen) → rerunStored ss [] = runStored ss
+  | [], _ => by funext s; rfl
+  | st :: ss, h => by
+    funext s
+    have h1 := Stored.rerun_nil st (h st (by simp))
+    have ih := rerunStored_nil ss (fun st' hst' => h st' (by simp [hst']))
+    simp only [rerunStored, runStored, h1, pastOuts_nil, ih]
+
+/-- **The first run of a sequence object is `Sequence.run`** (for elements whose `run` after no
+earlier run is their `run`): the history-indexed semantics extends the one of the theorems above. -/
+theorem rerun_nil (s : Seq α) (h : ∀ st ∈ s.stored, st.element.rerunDen [] = st.element.runDen) :
+    s.rerun [] = s.run := rerunStored_nil s.stored h
+
+theorem convertAll_append : ∀ (a b : List (Element α)) (sa sb : List (Stored α)),
+    convertAll a = .ok sa → convertAll b = .ok sb → convertAll (a ++ b) = .ok (sa ++ sb)
+  | [], b, sa, sb, ha, hb => by simp [convertAll] at ha; subst ha; simpa using hb
+  | e :: a, b, sa, sb, ha, hb => by
+    simp only [convertAll] at ha
+    cases hc : convert e with
+    | error err => simp [hc] at ha
+    | ok st =>
+      cases hr : convertAll a with
+      | error err => simp [hc, hr] at ha
+      | ok sa' =>
+        simp [hc, hr] at ha; subst ha
+        simp [convertAll, hc, convertAll_append a b sa' sb hr hb]
+
+/-- **Regrouping a sequence that is run again** (inside `RunIf`, in a `Split` branch):
+`Sequence(*a, *b)` run after the earlier inputs `past` is `Sequence(*a)` run after `past`, followed by
+`Sequence(*b)` run after what `Sequence(*a)` yielded in those earlier runs. -/
+theorem seq_rerun_append (a b : List (Element α)) (s sa sb : Seq α)
+    (hs : mkSequence (a ++ b) = .ok s) (ha : mkSequence a = .ok sa) (hb : mkSequence b = .ok sb)
+    (past : List (Strm α)) (flow : Strm α) :
+    s.rerun past flow = (sa.rerun past flow >>= sb.rerun (pastOutsAll sa.stored past)) := by
+  unfold mkSequence at hs ha hb
+  cases hca : convertAll (dataSeq a) with
+  | error e => simp [hca] at ha
+  | ok ssa =>
+    cases hcb : convertAll (dataSeq b) with
+    | error e => simp [hcb] at hb
+    | ok ssb =>
+      have hab := convertAll_append _ _ _ _ hca hcb
+      rw [← dataSeq_append] at hab
+      simp [hca] at ha; simp [hcb] at hb; simp [hab] at hs
+      subst ha; subst hb; subst hs
+      exact rerunStored_append ssa ssb past flow
+
+/-- non-vacuity: a fill/compute element (yields the number of values filled so far) behind
+`adapters.Run`, run a second time after a first run on two values -/
+example :
+    let cnt : Element Nat := { fill := .method, compute := .method, computeDen := fun h => .ok (.ofList [h.length]) }
+    (mkSequence [cnt]).toOption.map (fun s => observe (s.rerun [.ofList [7, 8]] (.ofList [9])))
+      = some (.ofList [3]) := by decide
+
+/-! ### `RunIf` and `Split` without state are the history-free functions -/
+
+theorem runIfGo_const (sel : α → Except Exc Bool) (inner : Stage α) (t : Option Exc) :
+    ∀ (vs : List α) (past : List (Strm α)),
+      runIfGo sel (fun _ => inner) t past vs =
+        bindGo (fun v => match sel v with
+          | .error e => .fail e
+          | .ok true => observe (inner (.ofList [v]))
+          | .ok false => .ofList [v]) t vs
+  | [], _ => rfl
+  | v :: vs, past => by
+    simp only [runIfGo, bindGo]
+    cases sel v with
+    | error e => simp [Strm.fail, Strm.andThen]
+    | ok b => cases b <;> simp [runIfGo_const sel inner t vs]
+
+/-- a `RunIf` whose inner sequence keeps no state is `runIfS`, whatever was run before -/
+theorem runIfH_const (sel : α → Except Exc Bool) (inner : Stage α) (past : List (Strm α)) (s : Strm α) :
+    runIfH sel (fun _ => inner) past s = runIfS sel inner s := by
+  simp only [runIfH, runIfS, bindS]
+  exact runIfGo_const sel inner s.term s.vals _
+
+/-! ### Source whose first element is a Sequence -/
+
+/-- `Source(Sequence(*xs), *tl)()`: the sequence is iterated — its arguments, as values, are the flow
+that enters `Sequence(*tl)` -/
+theorem source_of_sequence (xs tl : List (Element α)) (sx : Seq α) (hx : mkSequence xs = .ok sx) :
+    (∀ src, mkSource (sx.toElement :: tl) = .ok src →
+        ∃ s, mkSequence tl = .ok s ∧ src.call = s.run (.ofList (xs.filterMap (·.asValue)))) ∧
+    (∀ err, mkSource (sx.toElement :: tl) = .error err → mkSequence tl = .error err) := by
+  have hd : sx.toElement.hasNoData = false := rfl
+  have hf : (sx.toElement.call || sx.toElement.hasIter) = true := rfl
+  obtain ⟨h1, h2, -⟩ := source_tail sx.toElement tl hd hf
+  refine ⟨?_, h2⟩
+  intro src hsrc
+  obtain ⟨s, hs, hcall⟩ := h1 src hsrc
+  refine ⟨s, hs, ?_⟩
+  rw [hcall]
+  have : sx.argVals = xs.filterMap (·.asValue) := by
+    unfold mkSequence at hx
+    cases hc : convertAll (dataSeq xs) with
+    | error e => simp [hc] at hx
+    | ok ss => simp [hc] at hx; subst hx; rfl
+  simp [Element.sourceFlow, Seq.toElement, this, bind, Except.bind]
+
+/-! ### construction of `Split` branches -/
+
+theorem toFillStages_error : ∀ (es : List (Element α)) (err : Exc), toFillStages es = .error err → err = .lenaTypeError
+  | [], err, h => by simp [toFillStages] at h
+  | e :: es, err, h => by
+    simp only [toFillStages] at h
+    cases hc : toFillStage e with
+    | error e' =>
+      simp [hc] at h; subst h
+      unfold toFillStage at hc
+      split at hc
+      · cases hc
+      · split at hc
+        · cases hc
+        · split at hc
+          · cases hc
+          · cases hc; rfl
+    | ok st =>
+      cases hr : toFillStages es with
+      | error e' => simp [hc, hr] at h; subst h; exact toFillStages_error es _ hr
+      | ok sts => simp [hc, hr] at h
+
+/-- a tuple that `Split` cannot convert to a `Sequence` or a `FillComputeSeq` is rejected with
+`LenaTypeError` when the `Split` is constructed, with nothing else -/
+theorem mkBranch_error (es : List (Element α)) (err : Exc) (h : mkBranch es = .error err) :
+    err = .lenaTypeError := by
+  unfold mkBranch at h
+  split at h
+  · split at h
+    · cases h; rfl
+    · split at h
+      · next e' hst => cases h; exact toFillStages_error _ _ hst
+      · split at h
+        · next e' hm => cases h; exact (mkSequence_error_inv _ _ hm).1
+        · cases h
+  · split at h
+    · next e' hm => cases h; exact (mkSequence_error_inv _ _ hm).1
+    · cases h
+
+/-! ### accumulators: the float part is only used for floats -/
+
+/-- filling a value whose data is not a float into an accumulator that holds no float is `accFill` -/
+theorem accFillQ_noFloat (k : AccKind) (s : AccState) (v : Value)
+    (hv : ∀ n d, (getDataContext v).1 ≠ .quot n d) :
+    accFillQ k ⟨s, none⟩ v = (accFill k s v).map (fun s' => ⟨s', none⟩) := by
+  cases k with
+  | sum =>
+    simp only [accFillQ, accFill]
+    rcases hdc : getDataContext v with ⟨d, c⟩
+    rw [hdc] at hv
+    cases d <;> simp_all [addNum, Except.map]
+  | mean =>
+    simp only [accFillQ, accFill]
+    rcases hdc : getDataContext v with ⟨d, c⟩
+    rw [hdc] at hv
+    cases d <;> simp_all [addNum, Except.map]
+  | store g => rfl
+  | count n => rfl
+
+/-- … and computing from it is `accCompute` -/
+theorem accComputeQ_noFloat (k : AccKind) (s : AccState) : accComputeQ k ⟨s, none⟩ = accCompute k s := by
+  cases k with
+  | sum => rfl
+  | mean => simp only [accComputeQ, accCompute]
+  | store g => cases g <;> rfl
+  | count n => rfl
+
+/-! ### `Split` with stateless sequence branches is `splitS` -/
+
+theorem Strm.andThen_nil (s : Strm α) : s.andThen .nil = s := by
+  obtain ⟨v, t⟩ := s
+  cases t <;> simp [Strm.andThen, Strm.nil]
+
+theorem Strm.andThen_of_term (s t : Strm α) (e : Exc) (h : s.term = some e) : s.andThen t = s := by
+  obtain ⟨v, tm⟩ := s
+  simp only at h
+  subst h
+  rfl
+
+theorem bufPass_seq (past : List (Strm α)) (buf : List α) : ∀ (brs : List (Stage α)) (hs : List (List α)),
+    (bufPass past buf (seqBranches brs) hs).1 = runBranches brs buf
+  | [], _ => rfl
+  | b :: bs, hs => by
+    simp only [seqBranches, List.map_cons, bufPass, runBranches]
+    have ih := bufPass_seq past buf bs hs.tail
+    simp only [seqBranches] at ih
+    cases ht : (observe (b (.ofList buf))).term with
+    | some e => simp [Strm.andThen_of_term _ _ e ht]
+    | none => simp [ih]
+
+theorem finalPass_seq (past : List (Strm α)) : ∀ (brs : List (Stage α)) (hs : List (List α)),
+    finalPass true past (seqBranches brs) hs = runBranches brs [] ∧
+    finalPass false past (seqBranches brs) hs = .nil
+  | [], _ => ⟨rfl, rfl⟩
+  | b :: bs, hs => by
+    obtain ⟨h1, h2⟩ := finalPass_seq past bs hs.tail
+    have e : seqBranches (b :: bs) = .seqB (fun _ => b) :: seqBranches bs := rfl
+    constructor
+    · rw [e]; simp only [finalPass, if_true, runBranches, h1]
+    · rw [e]; simp only [finalPass, Bool.false_eq_true, if_false, h2]
+
+theorem splitLoopH_seq (brs : List (Stage α)) (b : Nat) (t : Option Exc) :
+    ∀ (fuel : Nat) (past : List (Strm α)) (hs : List (List α)) (xs : List α),
+      (splitLoopH (seqBranches brs) b t fuel past hs xs).1 = splitGo (runBranches brs) b t fuel xs
+  | 0, _, _, _ => rfl
+  | fuel + 1, past, hs, xs => by
+    simp only [splitLoopH, splitGo]
+    split
+    · cases t with
+      | some e => rfl
+      | none =>
+        simp only
+        split
+        · rfl
+        · exact bufPass_seq past xs brs hs
+    · have h1 := bufPass_seq past (xs.take b) brs hs
+      rcases hbp : bufPass past (List.take b xs) (seqBranches brs) hs with ⟨o, hs'⟩
+      rw [hbp] at h1
+      simp only at h1
+      simp only
+      cases ht : o.term with
+      | some e =>
+        simp only
+        rw [← h1, Strm.andThen_of_term _ _ e ht]
+      | none =>
+        simp only
+        have ih := splitLoopH_seq brs b t fuel (past ++ [.ofList (xs.take b)]) hs' (xs.drop b)
+        rcases hl : splitLoopH (seqBranches brs) b t fuel (past ++ [Strm.ofList (List.take b xs)]) hs' (List.drop b xs) with ⟨o', hs''⟩
+        rw [hl] at ih
+        simp only at ih
+        simp only
+        rw [← h1, ← ih]
+
+/-- **`Split` over stateless sequences is the simple block schedule `splitS`**, whatever was run
+before: the general `Split.run` of the model (`splitH`: sequence and fill/compute branches, state
+kept between buffers and between runs) does not change what the theorems about `splitS` say. -/
+theorem splitH_seq (brs : List (Stage α)) (bufsize : Option Nat) (hb : bufsize ≠ some 0)
+    (past : List (Strm α)) (hs : List (List α)) (s : Strm α) :
+    splitH (seqBranches brs) bufsize past hs s = splitS brs bufsize s := by
+  unfold splitH splitS
+  by_cases hbr : brs = []
+  · subst hbr; rfl
+  · have he1 : (seqBranches brs).isEmpty = false := by
+      cases brs with
+      | nil => exact absurd rfl hbr
+      | cons b bs => rfl
+    have he2 : brs.isEmpty = false := by
+      cases brs with
+      | nil => exact absurd rfl hbr
+      | cons b bs => rfl
+    simp only [he1, he2, Bool.false_eq_true, if_false]
+    cases bufsize with
+    | none =>
+      simp only
+      cases ht : s.term with
+      | some e => rfl
+      | none =>
+        simp only
+        by_cases hv : s.vals.isEmpty = true
+        · simp only [hv, if_true]
+          rw [(finalPass_seq past brs hs).1]
+          have : s.vals = [] := by simpa using hv
+          rw [this]
+        · simp only [hv, Bool.false_eq_true, if_false]
+          have h1 := bufPass_seq past s.vals brs hs
+          rcases hbp : bufPass past s.vals (seqBranches brs) hs with ⟨o, hs'⟩
+          rw [hbp] at h1
+          simp only at h1
+          simp only
+          cases hto : o.term with
+          | some e => simp only; exact h1
+          | none =>
+            simp only
+            rw [(finalPass_seq past brs hs').2, Strm.andThen_nil]; exact h1
+    | some b =>
+      have hb1 : 1 ≤ b := by
+        cases b with
+        | zero => exact absurd rfl hb
+        | succ n => omega
+      simp only
+      have h1 := splitLoopH_seq brs b s.term (s.vals.length + 1) past hs s.vals
+      rcases hl : splitLoopH (seqBranches brs) b s.term (s.vals.length + 1) past hs s.vals with ⟨o, hs'⟩
+      rw [hl] at h1
+      simp only at h1
+      simp only
+      by_cases hv : s.vals.isEmpty = true
+      · have hvn : s.vals = [] := by simpa using hv
+        cases ht : s.term with
+        | some e =>
+          rw [ht] at h1
+          simp only [hv, Option.isNone_some, Bool.and_false, Bool.false_eq_true, if_false]
+          rw [← h1]
+          cases hto : o.term with
+          | some e' => rfl
+          | none =>
+            simp only
+            -- the loop raised `e` at once: `o` is `.fail e`
+            have : o = .fail e := by
+              rw [h1, hvn]
+              simp [splitGo]
+              omega
+            rw [this] at hto
+            simp [Strm.fail] at hto
+        | none =>
+          rw [ht] at h1
+          simp only [hv, Option.isNone_none, Bool.and_true, if_true]
+          have ho : o = .nil := by
+            rw [h1, hvn]
+            simp [splitGo]
+            omega
+          subst ho
+          simp only [Strm.nil]
+          rw [(finalPass_seq past brs hs').1]
+          simp [Strm.andThen]
+      · have hv' : s.vals.isEmpty = false := by simpa using hv
+        simp only [hv', Bool.false_and, Bool.false_eq_true, if_false]
+        rw [← h1]
+        cases hto : o.term with
+        | some e => rfl
+        | none =>
+          simp only
+          rw [(finalPass_seq past brs hs').2, Strm.andThen_nil]
 
 end Lena.C01
